@@ -849,14 +849,19 @@ func vfTypeHook(g *vfG, t reflect.Type, tag vfTag, path string) (interface{}, bo
 				m["servers"] = svs
 			}
 		}
-		// weights: all zero or all positive, most of the time
+		// weight vectors validation accepts: all positive, or none positive (ServerPoolSpec.Validate
+		// only counts weights > 0 and the schema minimum is not enforced, so "none positive" includes
+		// absent, zero and negative weights in any mix), most of the time
 		if len(svs) > 0 && g.chance(path, "fix-weights", 95) {
-			mode := g.pick(path, "weights", "none", "positive", "zero")
+			mode := g.pick(path, "weights", "none", "positive", "zero", "non-positive-mixed", "all-negative")
+			negatives := 0
+			var maps []map[string]interface{}
 			for _, s := range svs {
 				sm, ok := s.(map[string]interface{})
 				if !ok {
 					continue
 				}
+				maps = append(maps, sm)
 				switch mode {
 				case "none":
 					delete(sm, "weight")
@@ -864,10 +869,30 @@ func vfTypeHook(g *vfG, t reflect.Type, tag vfTag, path string) (interface{}, bo
 					sm["weight"] = 0
 				case "positive":
 					sm["weight"] = g.intn(path, "w", 1, 3)
+				case "non-positive-mixed":
+					sm["weight"] = int(g.pickInt(path, "w", 0, -1, 0, -3, -100))
+				case "all-negative":
+					sm["weight"] = int(g.pickInt(path, "w", -1, -2, -100, -5))
+				}
+				if w, _ := sm["weight"].(int); w < 0 {
+					negatives++
 				}
 			}
-			if mode != "positive" {
+			if mode == "non-positive-mixed" && negatives == 0 && len(maps) > 0 {
+				// at least one negative weight, so that the sum differs from the all-zero class
+				maps[g.intn(path, "w-neg-at", 0, len(maps)-1)]["weight"] = int(g.pickInt(path, "w-neg", -1, -3, -100))
+			}
+			switch mode {
+			case "none", "zero":
 				g.bounds["weight:all-zero"] = true
+			case "non-positive-mixed", "all-negative":
+				g.bounds["weight:"+mode] = true
+			}
+			// weights are only read by the weightedRandom policy: pair them with it half of the time
+			if g.chance(path, "lb-weightedRandom", 50) {
+				m["loadBalance"] = map[string]interface{}{"policy": "weightedRandom"}
+				g.present[path+".loadBalance"] = true
+				g.bounds["loadbalance:weightedRandom+weights-"+mode] = true
 			}
 		}
 		return m, true
@@ -982,6 +1007,43 @@ func vfKindFixup(g *vfG, kind string, t reflect.Type, m map[string]interface{}) 
 			} else {
 				um["policyRef"] = names[g.intn("urls[].policyRef", "i", 0, len(names)-1)]
 			}
+		}
+		// cross-reference classes between the two levels (rule-level policyRef x defaultPolicyRef):
+		// a rule uses its own policyRef and falls back to the default only when it has none, so
+		// validation has to resolve exactly that name. "nope" never names a policy.
+		if g.chance("policyRef", "dangling", 20) {
+			var ums []map[string]interface{}
+			for _, u := range urls {
+				if um, ok := u.(map[string]interface{}); ok {
+					ums = append(ums, um)
+				}
+			}
+			if len(ums) == 0 {
+				return
+			}
+			one := ums[g.intn("policyRef", "dangling-rule", 0, len(ums)-1)]
+			good := func() string { return names[g.intn("policyRef", "good", 0, len(names)-1)] }
+			class := g.pick("policyRef", "dangling-class",
+				"rule-dangling+default-valid", "rule-valid+default-dangling",
+				"rule-dangling+default-valid", "rule-valid+default-dangling",
+				"rule-dangling+default-absent", "rule-absent+default-dangling")
+			switch class {
+			case "rule-dangling+default-valid": // the rule's own reference wins: cannot work
+				m["defaultPolicyRef"] = good()
+				one["policyRef"] = "nope"
+			case "rule-valid+default-dangling": // every rule resolves by itself; the default is never used
+				m["defaultPolicyRef"] = "nope"
+				for _, um := range ums {
+					um["policyRef"] = good()
+				}
+			case "rule-dangling+default-absent":
+				delete(m, "defaultPolicyRef")
+				one["policyRef"] = "nope"
+			case "rule-absent+default-dangling":
+				m["defaultPolicyRef"] = "nope"
+				delete(one, "policyRef")
+			}
+			g.bounds["policyref:"+class] = true
 		}
 	case "Validator":
 		n := 0
